@@ -8,7 +8,7 @@ wave = sys.argv[1]
 os.makedirs(wave, exist_ok=True)
 here = os.path.dirname(os.path.dirname(os.path.abspath(__file__)))
 for p in sys.argv[2:]:
-    base = open(f"/tmp/seed/{p}.prompt.txt").read()
+    base = open(os.path.join(here, "tools", "seed_prompts", f"{p}.prompt.txt")).read()  # the first-round prompts (property text only)
     base = base.split("IMPORTANT - this is a")[0].rstrip()
     base = base.replace(f"/tmp/seed/{p}", f"{wave}/{p}")
     prev = []
